@@ -264,6 +264,21 @@ def seriesReserved (blocks : List Block) (r : Req) : Nat :=
 def chunksReserved (blocks : List Block) (r : Req) : Nat :=
   ((selected blocks r).map (blockChunksReserved r.without · r)).sum
 
+/-- what the series limiter is charged for one block on either path of `blockSeriesClient`: eagerly
+    (`ExpandPostings`) the expanded postings; with lazily expanded postings (`nextBatch`, after every batch,
+    whether or not chunks are skipped) the series that were matched and are served -/
+def blockSeriesReservedMode (lazy : Bool) (R : List Nat) (b : Block) (r : Req) : Nat :=
+  if lazy then (blockSeries R b r).length else blockSeriesReserved b r
+
+/-- `lazy b`: did the optimizer expand the postings of block `b` lazily (it decides per block and request) -/
+def seriesReservedMode (lazy : Block → Bool) (blocks : List Block) (r : Req) : Nat :=
+  ((selected blocks r).map (fun b => blockSeriesReservedMode (lazy b) r.without b r)).sum
+
+/-- the expanded postings of (block, matchers) — what is cached under a key without time range: every series of
+    the block that satisfies the matchers, whatever its chunks -/
+def expandedPostings (ms : List Matcher) (series : List Series) : List Series :=
+  series.filter (fun s => matchesAll ms s.lset)
+
 inductive Limited (α : Type) where
   | ok (a : α)
   | exhausted
